@@ -32,6 +32,7 @@ type Gen struct {
 	Mutated  int // number of deliberately invalid injections
 	ReachedSelected bool
 	peerNom  uint32
+	nAdv     int
 }
 
 type outstanding struct {
@@ -68,6 +69,18 @@ var remotePool = []Cand{
 var unknownSrc = []Addr{V4(203, 0, 113, 77, 6005), V4(203, 0, 113, 78, 6010), V4(192, 168, 66, 6, 6011), V6(9, 6012)}
 
 var advances = []time.Duration{Grid, Grid, 5 * Grid, 10 * Grid, 20 * Grid, 40 * Grid, 50 * Grid, 100 * Grid, 300 * Grid}
+
+// Skew is added to every advance: a duration the agent measures is then (a multiple of Grid) + c*Skew
+// with 1 <= c <= MaxAdvances, or 0; every threshold is a multiple of Grid.  Real time only ever adds to a
+// measured duration, so a comparison can flip only when the added real time exceeds
+// Grid - MaxAdvances*Skew = MaxJitter.  The added real time is at most the duration of the operation that
+// stored the timestamp plus that of the operation reading it (see Sim.Do), hence the bound on MaxOp.
+const (
+	Skew        = 3 * time.Millisecond
+	MaxAdvances = 30
+	MaxJitter   = Grid - MaxAdvances*Skew
+	MaxOpTime   = MaxJitter/2 - time.Millisecond
+)
 
 // RandomConfig draws an agent configuration (all durations on the Grid).
 func RandomConfig(r *rand.Rand) Config {
@@ -263,6 +276,13 @@ func (g *Gen) Next() (Op, string) {
 		}
 		return Op{Kind: "ST", Ctl: ctl, A: g.RU, B: g.RP}, "start"
 	}
+	if !g.Started && r >= 40 && r < 83 {
+		// sockets are not read before the agent is started: no inbound traffic yet
+		if r < 60 {
+			return Op{Kind: "AL", Cand: g.localCand()}, "add_local"
+		}
+		return Op{Kind: "AR", Cand: g.remoteCand()}, "add_remote"
+	}
 	switch {
 	case r < 6:
 		return Op{Kind: "AL", Cand: g.localCand()}, "add_local"
@@ -271,7 +291,11 @@ func (g *Gen) Next() (Op, string) {
 	case r < 30:
 		return Op{Kind: "TK"}, "tick"
 	case r < 40:
-		return Op{Kind: "AV", D: advances[g.pick(len(advances))]}, "advance"
+		if g.nAdv >= MaxAdvances {
+			return Op{Kind: "TK"}, "tick"
+		}
+		g.nAdv++
+		return Op{Kind: "AV", D: advances[g.pick(len(advances))] + Skew}, "advance"
 	case r < 58:
 		return g.response()
 	case r < 74:
@@ -309,7 +333,11 @@ func (g *Gen) Next() (Op, string) {
 	case r < 99:
 		return Op{Kind: "CL"}, "close"
 	default:
-		return Op{Kind: "AV", D: 300 * Grid}, "advance"
+		if g.nAdv >= MaxAdvances {
+			return Op{Kind: "TK"}, "tick"
+		}
+		g.nAdv++
+		return Op{Kind: "AV", D: 300*Grid + Skew}, "advance"
 	}
 }
 
